@@ -191,6 +191,11 @@ var richForms = []richForm{
 	{"where", true, false, func(c *fw.Case, d *richDoc, vf string) string {
 		return "SELECT * FROM t1 WHERE " + vf + "(n1) " + gen.Pick(c.R, []string{">", "<", "=", ">=", "!="}) + " " + numConst(c, d) + gen.Pick(c.R, []string{"", " AND " + richPred(c, d, 1), " OR " + richPred(c, d, 1)})
 	}},
+	{"where.between", true, false, func(c *fw.Case, d *richDoc, vf string) string {
+		// the call is a bound (or the tested value) of a range check, over a table read without an alias
+		return gen.Pick(c.R, []string{"SELECT rid FROM t1 WHERE n1 BETWEEN " + vf + "(n2) AND 100000", "SELECT rid, s1 FROM t1 WHERE n1 NOT BETWEEN -100000 AND " + vf + "(n2)",
+			"SELECT rid FROM t1 WHERE " + vf + "(n1) BETWEEN -100000 AND 100000 AND " + richPred(c, d, 1), "SELECT rid, (n1 BETWEEN " + vf + "(n2) AND 100000) AS inside FROM t1"})
+	}},
 	{"where.bool", true, false, func(c *fw.Case, d *richDoc, vf string) string {
 		return "SELECT rid, s1 FROM t1 WHERE " + richPred(c, d, 1) + " AND " + vf + "(b1)"
 	}},
@@ -465,6 +470,9 @@ var joinFollowUps = []string{
 
 var followUps = []string{
 	"SELECT rid, s1 FROM t1 WHERE n1 >= 0",
+	// whole rows shown under a name: every key a row carries comes out
+	"SELECT * FROM t1 u",
+	"SELECT u AS whole FROM t1 u WHERE u.rid >= 0",
 	"SELECT DISTINCT * FROM t1",
 	"SELECT rid, (SELECT e FROM arr) AS sub FROM t1 WHERE EXISTS (SELECT e FROM arr WHERE e >= 0)",
 	"SELECT s1, COUNT(*) AS c, SUM(n1) AS s FROM t1 GROUP BY s1",
